@@ -638,10 +638,39 @@ pub fn generate(rng: &mut Rng, tier: Tier) -> Plan {
                 target: target(rng, forked),
                 order: rng.below(3) as u8,
             }),
-            2 => steps.push(Step::Update {
-                target: target(rng, forked),
-                items: gen_refuse_unknown(rng, &cur, &ccys, &outsider),
-            }),
+            2 => {
+                let mut items = gen_refuse_unknown(rng, &cur, &ccys, &outsider);
+                // ... sometimes inside a list that re-dates EVERY stored quote (and dates the
+                // unknown entry like the rest)
+                if rng.chance(0.15) {
+                    let nd = Some(rng.i64_in(10957, 22000));
+                    let mut all: Vec<Quote> = cur
+                        .iter()
+                        .map(|q| Quote {
+                            lhs: q.lhs.clone(),
+                            rhs: q.rhs.clone(),
+                            num: q.num.with_value(gen_level(rng)),
+                            settle: nd,
+                            tod: None,
+                        })
+                        .collect();
+                    let known = |it: &Quote| cur.iter().any(|q| q.lhs.eq_ignore_ascii_case(&it.lhs) && q.rhs.eq_ignore_ascii_case(&it.rhs));
+                    let unknown: Vec<Quote> = items.iter().filter(|it| !known(it)).cloned().collect();
+                    for mut u in unknown {
+                        u.settle = nd;
+                        u.tod = None;
+                        let pos = rng.usize_in(0, all.len());
+                        all.insert(pos, u);
+                    }
+                    if all.len() > cur.len() {
+                        items = all;
+                    }
+                }
+                steps.push(Step::Update {
+                    target: target(rng, forked),
+                    items,
+                })
+            }
             3 => {
                 if let Some(items) = gen_refuse_late(rng, &cur) {
                     steps.push(Step::Update {
@@ -2038,6 +2067,7 @@ pub struct C10;
 impl Scenario for C10 {
     type Plan = Plan;
     const ID: &'static str = "C10";
+    const BARE_PASS: bool = true;
     const LEVEL: &'static str = "exploration";
 
     fn units(tier: Tier) -> u64 {
